@@ -57,6 +57,9 @@ func (c *containerServer) handleExecve(cmd *execCmd, msg unixsocket.Msg) error {
 		cmd.Argv[0] = exePath
 	}
 
+	// synced is set once the host has acknowledged the sync: from then on the
+	// host waits for the result and answers it with a kill command
+	synced := false
 	syncPid := func(pid int) error {
 		msg := unixsocket.Msg{
 			Cred: &syscall.Ucred{
@@ -75,6 +78,7 @@ func (c *containerServer) handleExecve(cmd *execCmd, msg unixsocket.Msg) error {
 		if cmd.Cmd == cmdKill {
 			return fmt.Errorf("sync func: received kill")
 		}
+		synced = true
 		return nil
 	}
 	var syncFunc func(pid int) error
@@ -119,7 +123,13 @@ func (c *containerServer) handleExecve(cmd *execCmd, msg unixsocket.Msg) error {
 		if len(cmd.Argv) > 0 {
 			s = cmd.Argv[0]
 		}
-		return c.sendErrorReply("start: %s: %v", s, err)
+		if err := c.sendErrorReply("start: %s: %v", s, err); err != nil || !synced {
+			return err
+		}
+		// start failed after the sync (e.g. execve error): the host takes
+		// the error reply as the result and sends kill, consume it
+		_, _, err = c.recvCmd()
+		return err
 	}
 	if cmd.SyncAfter {
 		if err := syncPid(1); err != nil {
